@@ -81,7 +81,7 @@ class Run:
             e.update(env)
         rc, out = v.go_test(self.sc, pkgdir, self.overlay(hname, pkgdir), runre, e, race=race,
                             timeout=timeout)
-        if rc != 0 and "panic: test timed out" in out and not allow_fail:
+        if rc != 0 and ("panic: test timed out" in out or "SIGQUIT: quit" in out) and not allow_fail:
             # a deterministic (directed) harness that ran into its timeout is run once more: twice a run of a
             # server harness was seen stuck for minutes in "GC assist wait" inside a bubble (not reproducible
             # with the same input; no verdict is ever derived from a run that did not finish)
